@@ -50,6 +50,10 @@ class Checker(object):
         fn = func.name if hasattr(func, "name") else func
         if hasattr(func, "id"):
             self.funcs_analysed.add(func.id)
+        if not ok and getattr(func, "unmodelled", None):
+            # the function was flattened over a helper whose result it branches on: a path rule cannot tell feasible from infeasible
+            # combinations there, so a failed obligation is "cannot decide" (exit 2), not a violation
+            raise AnalysisBroken("%s in %s: %s" % (rule, fn, func.unmodelled[0]))
         # the same construct seen through several template instantiations / units is one obligation
         prev = self._index.get((rule, key))
         if prev is not None:
